@@ -11,7 +11,10 @@ package processor
 //
 // Histories (historyCases, part of TestVerifGate too): a Push whose guardian-set lookup is held at a gate of the fake chain
 // while other Pushes fetch newer sets (overlapping / repeated / contained batches, line field cur0=), a chain many sets
-// ahead, and after each for every known set VAAs signed by a quorum of each OTHER known set (mkCross).
+// ahead, and after each for every known set VAAs signed by a quorum of each OTHER known set (mkCross); right after a set change
+// (overlapWorld: the new set keeps the old one's low positions) the on-demand lookup of the named set FAILS at the fake chain
+// - RPC error, HTTP 503, undecodable / empty result, no dial; once, twice, for a whole window; any request of the range - while
+// VAAs naming the new set with a quorum of a STORED set arrive, and the same VAAs again once the node answers (failedLookupHistory).
 //
 // vaa.VAA / VerifySignatures / processor.CalculateQuorum are the module-cache versions the explorer is built with
 // (github.com/alephium/wormhole-fork/node v0.0.0-20240818215257-cb0667c4f6c1).
@@ -137,9 +140,13 @@ type pChain struct {
 	abi    gethabi.ABI
 	keys   map[uint32][]eth_common.Address
 	failAt map[uint32]bool
-	cur    uint32
-	log    []string
-	srv    *httptest.Server
+	// failN[i] = number of getGuardianSet(i) requests that still fail (an outage that ends by itself); failMode = how a failing
+	// request is answered (pFailModes: JSON-RPC error, HTTP 503, an ABI-undecodable result, an empty result)
+	failN    map[uint32]int
+	failMode int
+	cur      uint32
+	log      []string
+	srv      *httptest.Server
 
 	// one-shot gate: while armed, the next getGuardianSet request is announced on `arrived` and answered (and logged) only
 	// after its release channel is closed
@@ -171,9 +178,30 @@ func pNewChain() *pChain {
 	if err != nil {
 		panic(err)
 	}
-	c := &pChain{abi: parsed, keys: map[uint32][]eth_common.Address{}, failAt: map[uint32]bool{}, arrived: make(chan chan struct{}, 16)}
+	c := &pChain{abi: parsed, keys: map[uint32][]eth_common.Address{}, failAt: map[uint32]bool{}, failN: map[uint32]int{}, arrived: make(chan chan struct{}, 16)}
 	c.srv = httptest.NewServer(http.HandlerFunc(c.serve))
 	return c
+}
+
+// setFail: the next n requests for getGuardianSet(idx) fail in the given mode, then the node answers again
+func (c *pChain) setFail(idx uint32, n int, mode int) {
+	c.mu.Lock()
+	c.failN = map[uint32]int{idx: n}
+	c.failMode = mode
+	c.mu.Unlock()
+}
+
+func (c *pChain) clearFail() {
+	c.mu.Lock()
+	c.failN = map[uint32]int{}
+	c.failMode = 0
+	c.mu.Unlock()
+}
+
+func (c *pChain) failLeft(idx uint32) int {
+	c.mu.Lock()
+	defer c.mu.Unlock()
+	return c.failN[idx]
 }
 
 func (c *pChain) takeLog() string {
@@ -240,9 +268,22 @@ func (c *pChain) serve(w http.ResponseWriter, r *http.Request) {
 			return
 		}
 		idx := args[0].(uint32)
-		if c.failAt[idx] {
+		if c.failAt[idx] || c.failN[idx] > 0 {
+			if c.failN[idx] > 0 {
+				c.failN[idx]--
+			}
 			c.log = append(c.log, fmt.Sprintf("%d:err", idx))
-			fail("boom")
+			switch c.failMode {
+			case 1: // the endpoint is up but not serving
+				w.WriteHeader(http.StatusServiceUnavailable)
+				fmt.Fprint(w, "service unavailable")
+			case 2: // a result that is not the ABI encoding of a guardian set (one word: an offset pointing past the end)
+				fmt.Fprintf(w, `{"jsonrpc":"2.0","id":%s,"result":"0x%064x"}`, string(req.ID), 0x20)
+			case 3: // an empty result (no contract behind the address as far as this answer goes)
+				fmt.Fprintf(w, `{"jsonrpc":"2.0","id":%s,"result":"0x"}`, string(req.ID))
+			default:
+				fail("boom")
+			}
 			return
 		}
 		keys := c.keys[idx]
@@ -593,6 +634,8 @@ func (g *pGen) newEnv(cid string, w *pWorld, n0 int, qcap int) *pEnv {
 	g.chain.mu.Lock()
 	g.chain.keys = map[uint32][]eth_common.Address{}
 	g.chain.failAt = map[uint32]bool{}
+	g.chain.failN = map[uint32]int{}
+	g.chain.failMode = 0
 	g.chain.cur = uint32(len(w.truth) - 1)
 	g.chain.log = nil
 	for i := range w.truth {
@@ -1133,6 +1176,156 @@ func (g *pGen) historyCases() {
 	}
 	g.farHistory(1+g.r.Intn(2), 9+g.r.Intn(4), false)
 	g.farHistory(1+g.r.Intn(2), 9+g.r.Intn(4), true)
+	g.failedLookupCases()
+}
+
+// ---------------------------------------------------------------- histories: the on-demand guardian-set lookup fails at the chain
+
+// how the fake node (or the way to it) fails the on-demand lookup
+var pFailModes = []string{"rpcerr", "http503", "malformed", "empty", "nodial"}
+
+// overlapWorld: guardian sets that share keys with their predecessor position by position, the way sets are changed in
+// practice - extended, shrunk, a few members replaced: set i+1 keeps the first min(|set i|, |set i+1|) - drop keys of set i
+// at the same positions (at least key 0), the rest are fresh keys.  A low-index signature of a kept guardian verifies
+// against both sets; only the THRESHOLD (and the higher positions) tell them apart.
+func (g *pGen) overlapWorld(sizes []int, drop int) *pWorld {
+	w := &pWorld{nilAt: -1}
+	var prev []pKey
+	for _, n := range sizes {
+		keep := len(prev)
+		if n < keep {
+			keep = n
+		}
+		if keep > 1 {
+			keep -= drop
+			if keep < 1 {
+				keep = 1
+			}
+		}
+		ks := make([]pKey, 0, n)
+		ks = append(ks, prev[:keep]...)
+		for len(ks) < n {
+			ks = append(ks, g.newKey())
+		}
+		w.truth = append(w.truth, ks)
+		prev = ks
+	}
+	return w
+}
+
+// mkLowPrefix: a VAA naming set si signed by that set's OWN guardians at positions 0..k-1 (valid signatures, too few of them
+// when k is the quorum of a smaller set)
+func (g *pGen) mkLowPrefix(w *pWorld, si, k int) (*vaa.VAA, string) {
+	v := g.body(uint32(si))
+	keys := w.truth[si]
+	if k > len(keys) {
+		k = len(keys)
+	}
+	g.signWith(v, keys, firstN(k))
+	return v, fmt.Sprintf("own-first/%dof%d", k, len(keys))
+}
+
+// worlds of the failed-lookup histories: set sizes, how many of the shared low positions are replaced from one set to the
+// next, sets the explorer holds at start-up
+type pFailWorld struct {
+	sizes []int
+	drop  int
+	n0    int
+}
+
+var pFailWorlds = []pFailWorld{
+	{[]int{1, 19}, 0, 1},                // the bootstrap set extended to a full set, key 0 kept
+	{[]int{1, 4, 13, 19}, 0, 1},         // every set extends the one before
+	{[]int{1, 2, 4, 7, 13, 19}, 0, 2},   //   "   (two sets held)
+	{[]int{1, 1, 19, 19, 19}, 1, 2},     // same size, one of the shared positions replaced
+	{[]int{19, 13, 7, 4, 1}, 0, 1},      // every set is a prefix of the one before
+	{[]int{3, 6, 10, 19, 19}, 1, 3},     // three sets held
+	{[]int{7, 19, 4, 13, 19, 2}, 0, 1},  // up and down, shared prefixes
+	{[]int{19, 19, 19, 19}, 6, 1},       // a third of the members replaced each time
+	{[]int{2, 3, 5, 9, 19}, 0, 4},       // only the newest set missing
+}
+
+// failedLookupHistory: right after a guardian-set change - the explorer holds sets 0..cur, a VAA naming set cur+d (d = 1..3)
+// arrives, the set is fetched from the chain ON DEMAND, and that lookup FAILS: the request for one index of the range
+// (first / middle / last) is answered with an RPC error / HTTP 503 / an undecodable or empty result, or the endpoint cannot be
+// dialled - for the next `nfail` lookups (1, 2, or the whole window), then the node answers again.  While the lookup fails and
+// once more after it has recovered (the same VAAs: gossip repeats, other guardians' copies arrive) the window is pushed:
+//   for the newest, the one before it and the oldest stored set j: a VAA NAMING cur+d with exactly a quorum of set j's guardians
+//   a complete VAA of set cur+d
+//   a VAA of set cur+d with as many of its own low-position signatures as the newest stored set's quorum
+// then every known set is probed (genuine + cross-signed).  Whatever set an implementation looks at when it cannot get the named
+// one - the newest stored, the one before the named, set 0, a set remembered from the failed attempt - one of these passes its gate.
+func (g *pGen) failedLookupHistory(hi int, fw pFailWorld) {
+	w := g.overlapWorld(fw.sizes, fw.drop)
+	e := g.newEnv(g.cid("pushlf"), w, fw.n0, 2)
+	ok := pOpt{room: 2, failAt: -1}
+	top := len(fw.sizes) - 1
+	salt := g.r.Intn(30)
+	type wv struct {
+		v *vaa.VAA
+		k string
+	}
+	for round := 0; round <= top; round++ {
+		cur, _ := e.gs.VerifState()
+		if cur < 0 || cur >= top {
+			break
+		}
+		k := salt + hi + round
+		d := 1 + k%3
+		if cur+d > top {
+			d = top - cur
+		}
+		idx := cur + d
+		p := cur + 1 + []int{0, d - 1, d / 2}[(k/3)%3] // which request of the range fails: first / last / middle
+		mode := k % len(pFailModes)
+		var win []wv
+		seen := map[int]bool{}
+		for _, j := range []int{cur, cur - 1, 0} {
+			if j < 0 || seen[j] {
+				continue
+			}
+			seen[j] = true
+			v, kn := g.mkCross(w, idx, j)
+			win = append(win, wv{v, kn})
+		}
+		v, kn := g.mkGenuine(w, idx)
+		win = append(win, wv{v, kn})
+		v, kn = g.mkLowPrefix(w, idx, nodeprocessor.CalculateQuorum(len(w.truth[cur])))
+		win = append(win, wv{v, kn})
+		nfail := []int{1, len(win), 2}[(k/2)%3]
+		nodial := pFailModes[mode] == "nodial"
+		if !nodial {
+			g.chain.setFail(uint32(p), nfail, mode)
+		}
+		where := fmt.Sprintf("%s@%d/cur%d", pFailModes[mode], p, cur)
+		for i, x := range win {
+			o := ok
+			failing := g.chain.failLeft(uint32(p)) > 0
+			if nodial {
+				failing = i < nfail
+				o.noDial = failing
+			}
+			if c, _ := e.gs.VerifState(); c >= idx {
+				failing = false // an earlier push of the window got the set: nothing is looked up any more
+			}
+			label := fmt.Sprintf("lookup-recovered/%s/", where)
+			if failing {
+				label = fmt.Sprintf("lookup-fails/%s/%dof%d/", where, i+1, nfail)
+			}
+			e.push(x.v, label+x.k, o)
+		}
+		g.chain.clearFail()
+		for _, x := range win {
+			e.push(x.v, "again-after-recovery/"+where+"/"+x.k, ok)
+		}
+		e.probeAll(2)
+	}
+}
+
+func (g *pGen) failedLookupCases() {
+	for hi, fw := range pFailWorlds {
+		g.failedLookupHistory(hi, fw)
+	}
 }
 
 func (g *pGen) sequence(steps int) {
@@ -1221,6 +1414,9 @@ func (g *pGen) sequence(steps int) {
 		o.noDial = r.Intn(12) == 0
 		if int(v.GuardianSetIndex) > cur && r.Intn(6) == 0 {
 			o.failAt = cur + 1 + r.Intn(int(v.GuardianSetIndex)-cur)
+			g.chain.mu.Lock()
+			g.chain.failMode = i % 4
+			g.chain.mu.Unlock()
 		}
 		e.push(v, kname, o)
 		if len(prev) < 8 && !strings.HasPrefix(kname, "forged-") {
